@@ -233,7 +233,14 @@ func (s *session) apply(op Op, observe bool) (o *Obs) {
 				o.Panic = fmt.Sprint(r)
 			}
 		}()
-		a := s.assoc(op.Unscoped)
+		a := s.assoc(op.Unscoped && !op.Derive)
+		if op.Derive {
+			// a is the kept handle h; derive the Unscoped view before the call
+			u := a.Unscoped()
+			if op.Unscoped {
+				a = u
+			}
+		}
 		var values []interface{}
 		switch op.Code {
 		case "Append", "Replace":
@@ -255,7 +262,11 @@ func (s *session) apply(op Op, observe bool) (o *Obs) {
 			}
 		case "Delete":
 			var ts []*Target
-			for _, sym := range op.Args[0] {
+			var named []int
+			if len(op.Args) > 0 {
+				named = op.Args[0]
+			}
+			for _, sym := range named {
 				t := mkTarget(sym)
 				ts = append(ts, t)
 				values = append(values, t)
